@@ -95,3 +95,79 @@ def install(eng, which=None):
         if which is None or k in which:
             eng.intercepts[k] = f
     return sorted(eng.intercepts)
+
+
+# ---- year-specific contract for LocalDate::forEpochSeconds ------------------------------------------
+
+LD_FOR_EPOCH_SECONDS = '_ZN8ace_time9LocalDate15forEpochSecondsEi'
+
+
+def year_fields(t, year):
+    """(yearTiny const, month(t), day(t)) for E(year) <= t < E(year+1), written without division:
+    thresholds on t for the month starts and for the day starts inside a month."""
+    e0 = cal.epoch_seconds(year)
+    leap = cal.is_leap(year)
+    m = z3.BitVecVal(12, 8)
+    mstart = z3.BitVecVal((e0 + 86400 * cal.CUM[leap][12]) & 0xffffffff, 32)
+    for k in range(11, 0, -1):
+        lim = e0 + 86400 * cal.CUM[leap][k + 1]      # first second of month k+1
+        c = t < lim
+        m = z3.If(c, z3.BitVecVal(k, 8), m)
+        mstart = z3.If(c, z3.BitVecVal((e0 + 86400 * cal.CUM[leap][k]) & 0xffffffff, 32), mstart)
+    r = t - mstart                                    # seconds into the month, < 31*86400
+    d = z3.BitVecVal(31, 8)
+    for k in range(30, 0, -1):
+        d = z3.If(z3.ULT(r, 86400 * k), z3.BitVecVal(k, 8), d)
+    return (year - 2000) & 0xff, m, d
+
+
+def year_fields_concrete(t, year):
+    y, m, d = cal.civil(t // 86400)
+    return (y - 2000) & 0xff, m, d
+
+
+def year_contract(year, lo=None, hi=None):
+    """Intercept for LocalDate::forEpochSeconds valid for t in [lo, hi) within [E(year), E(year+1)).
+    Post-condition (lemma L_year, discharged on the real IR by the z_year_lemma harness in the same run):
+      yearTiny == year-2000, 1<=month<=12, 1<=day<=31, (month==1 and day==1) <=> t < E(year)+86400.
+    Month and day are fresh variables constrained by exactly that (the zone processors only test
+    "is it January 1st"); when [lo,hi) lies on one side of E(year)+86400 the test is decided syntactically."""
+    e0, e1 = cal.epoch_seconds(year), cal.epoch_seconds(year + 1)
+    lo = e0 if lo is None else lo
+    hi = e1 if hi is None else hi
+    assert e0 <= lo < hi <= e1
+    jan2 = e0 + 86400
+
+    def f(eng, st, args):
+        t = args[0]
+        if _is_conc(t):
+            return NotImplemented
+        ck = ('ldfes', t.get_id())
+        hit = st.user.get(ck)
+        if hit is not None:          # same argument term: the same result (the function is pure)
+            return hit[0]
+        _pre(eng, st, z3.And(t >= lo, t < hi), 'LocalDate::forEpochSeconds argument within [%d,%d) of year %d' % (
+            lo, hi, year))
+        yt = z3.BitVecVal((year - 2000) & 0xff, 8)
+        if hi <= jan2:
+            r = z3.Concat(z3.BitVecVal(1, 8), z3.BitVecVal(1, 8), yt)
+            st.user[ck] = (r, t)
+            return r
+        m, d = eng.fresh('ld_m', 8), eng.fresh('ld_d', 8)
+        rng = z3.And(z3.UGE(m, 1), z3.ULE(m, 12), z3.UGE(d, 1), z3.ULE(d, 31))
+        if lo >= jan2:
+            st.pc.append(z3.And(rng, z3.Not(z3.And(m == 1, d == 1))))
+        else:
+            st.pc.append(z3.And(rng, z3.And(m == 1, d == 1) == (t < jan2)))
+        r = z3.Concat(d, m, yt)
+        st.user[ck] = (r, t)
+        return r
+    return f
+
+
+def year_lemma_negation(t, yt, m, d, year):
+    """Negation of lemma L_year over the observed fields of the real LocalDate::forEpochSeconds(t)."""
+    jan2 = cal.epoch_seconds(year) + 86400
+    ok = z3.And(yt == ((year - 2000) & 0xff), z3.UGE(m, 1), z3.ULE(m, 12), z3.UGE(d, 1), z3.ULE(d, 31),
+                z3.And(m == 1, d == 1) == (t < jan2))
+    return z3.Not(ok)
